@@ -28,6 +28,7 @@ SCALARS = (NONE_T, BOOL_T, INT_T, FLOAT_T, STR_T, DT_T)
 SEQS = (TUPLE_T, LIST_T)
 FIN, NAN, PINF, NINF = 0, 1, 2, 3
 INT_EXACT = 2 ** 53                      # |i| <= 2**53: float(i) is exact (and cannot overflow)
+FLOAT_OVERFLOW = 2 ** 1024               # float(i) raises OverflowError from here on (CPython: "int too large to convert to float")
 O_LO, O_HI = 693596, 839693              # ordinals of 1900-01-01 and 2300-01-01
 
 # ---- the literal strings CPython produces for str(type(x)), evaluated now (generation time) -----------------------------
@@ -145,11 +146,12 @@ def typerank(tagterm):
     return r
 
 
-def wf(h, tags=SCALARS):
-    """well-formedness of one object of the universe (instance of the universe's axioms at handle h)"""
+def wf(h, tags=SCALARS, int_bound=True):
+    """well-formedness of one object of the universe (instance of the universe's axioms at handle h); int_bound=False drops
+    the |i| <= 2**53 restriction on ints (used only to exhibit what lies outside it)"""
     return [tag_in(h, tags),
             Implies(tag(h) == NONE_T, h == NONE_H), Implies(tag(h) == BOOL_T, h == If(bv(h), TRUE_H, FALSE_H)),
-            Implies(tag(h) == INT_T, And(-INT_EXACT <= iv(h), iv(h) <= INT_EXACT)),
+            Implies(tag(h) == INT_T, And(-INT_EXACT <= iv(h), iv(h) <= INT_EXACT)) if int_bound else BoolVal(True),
             Implies(tag(h) == FLOAT_T, And(0 <= fk(h), fk(h) <= 3)),
             Implies(tag(h) == DT_T, And(O_LO <= do(h), do(h) < O_HI, 0 <= du(h), du(h) < DAYUS)),
             ln(h) >= 0, depth(h) >= 0, Implies(is_scalar(h), depth(h) == 0)]
@@ -158,13 +160,13 @@ def wf(h, tags=SCALARS):
 SINGLETONS = [tag(NONE_H) == NONE_T, tag(TRUE_H) == BOOL_T, bv(TRUE_H), tag(FALSE_H) == BOOL_T, Not(bv(FALSE_H))]
 
 
-def universe_axioms(tags, elem_tags=None):
+def universe_axioms(tags, elem_tags=None, int_bound=True):
     """closure of the universe predicate inU: every member is well formed, the elements of a member tuple / list are members
     of strictly smaller nesting depth (finite, acyclic nesting)"""
     h, j = Int('h!u'), Int('j!u')
     et = tags if elem_tags is None else elem_tags
     return SINGLETONS + [
-        ForAll([h], Implies(inU(h), And(*wf(h, tags))), patterns=[inU(h)]),
+        ForAll([h], Implies(inU(h), And(*wf(h, tags, int_bound))), patterns=[inU(h)]),
         ForAll([h, j], Implies(And(inU(h), is_seq(h), 0 <= j, j < ln(h)),
                                And(inU(at(h, j)), depth(at(h, j)) < depth(h), tag_in(at(h, j), et))), patterns=[at(h, j)])]
 
@@ -270,6 +272,7 @@ class Vals:
             h = a0.t
             ex.raise_if(st, Not(Or(is_num(h), tag(h) == STR_T)), 'TypeError')
             ex.raise_if(st, tag(h) == STR_T, 'ValueError')            # a string that may not spell a number
+            ex.raise_if(st, And(tag(h) == INT_T, Or(iv(h) >= FLOAT_OVERFLOW, iv(h) <= -FLOAT_OVERFLOW)), 'OverflowError')
             ex.use('assumed:float(i) is exact and does not overflow for |i| <= 2**53 (the int universe of the contracts)')
             r = fresh_int('float')
             ex.fact(Implies(tag(h) == FLOAT_T, r == h))
